@@ -631,6 +631,59 @@ pub fn run(args: &Args) {
             out::viol(&format!("C09/panic/huge/{}", panic_sig(&p)), J::s(p));
         }
     }
+    // counters that wrap: the same operation repeated 2^8 / 2^16 times (+-1) between two uses of a
+    // page; a page marked before must be markable again and a page cleared must stay clear
+    if args.shard().0 == 0 && !cfg!(miri) && !args.flag("nowrap") {
+        let r0 = guarded(|| {
+            for reps in [255usize, 256, 257, 65535, 65536, 65537, 131072, 65536 * 3] {
+                for clear_kind in 0..4u8 {
+                    let b = AtomicBitmap::new(300, NonZeroUsize::new(1).unwrap());
+                    let p = 77usize;
+                    b.set_bit(p);
+                    b.reset_bit(p);
+                    b.set_addr_range(p, 1);
+                    b.reset_addr_range(p, 1);
+                    b.mark_dirty(p, 1);
+                    let _ = b.get_and_reset();
+                    b.set_bit(p);
+                    // many clearing operations that do not involve P's neighbours
+                    for i in 0..reps {
+                        match clear_kind {
+                            0 => b.reset_bit(200 + i % 50),
+                            1 => b.reset_addr_range(200, 3),
+                            2 => {
+                                b.reset_bit(p);
+                            }
+                            _ => {
+                                let w = b.get_and_reset();
+                                if i == 0 && (w[1] >> (p - 64)) & 1 != 1 {
+                                    out::viol("C09/wrap/first-harvest-missed-the-page", jobj! {"reps" => reps});
+                                }
+                            }
+                        }
+                    }
+                    let was = b.is_bit_set(p);
+                    let want_was = clear_kind < 2;
+                    b.set_bit(p);
+                    let after_set = b.is_bit_set(p);
+                    b.reset_bit(p);
+                    b.mark_dirty(p, 1);
+                    let after_mark = b.dirty_at(p);
+                    b.reset_addr_range(p, 1);
+                    b.set_addr_range(p, 1);
+                    let w = b.get_and_reset();
+                    if was != want_was || !after_set || !after_mark || (w[1] >> (p - 64)) & 1 != 1 || b.is_bit_set(p) {
+                        out::viol("C09/wrap/page-state-wrong-after-many-repetitions", jobj! {"repetitions" => reps, "clear_kind" => clear_kind, "set_before_remark" => was, "after_set_bit" => after_set, "after_mark_dirty" => after_mark, "harvested" => (w[1] >> (p - 64)) & 1});
+                    }
+                    out::key(&format!("wrap|reps{}|kind{}", reps, clear_kind), true);
+                    out::eval(reps as u64);
+                }
+            }
+        });
+        if let Err(p) = r0 {
+            out::viol(&format!("C09/panic/wrap/{}", panic_sig(&p)), J::s(p));
+        }
+    }
     let pages_list = [1usize, 2, 3, 5, 7, 64, 100, 128, 4096];
     let lo = args.u64("minops", 30);
     let hi = args.u64("maxops", 300);
